@@ -186,12 +186,14 @@ def _ipv6_builders():
     p = self.P.ipv6(); p.tc = self.i('tc6', 8); p.flow = self.i('flow', 20); p.hop_limit = self.i('hlim', 8)
     p.srcip = ip6(self, 'src6'); p.dstip = ip6(self, 'dst6')
     hdrs = []; elen = 0
-    kinds = {'hop': (I6.HopByHopOptions, 0), 'route': (I6.Routing, 43), 'frag': (I6.Fragment, 44), 'dest': (I6.DestinationOptions, 60)}
+    kinds = {'hop': (I6.HopByHopOptions, 0), 'route': (I6.Routing, 43), 'frag': (I6.Fragment, 44), 'fragdef': (I6.Fragment, 44), 'dest': (I6.DestinationOptions, 60)}
     chain = [kinds[e.split(':')[0]][1] for e in ehs] + [nh]
     for j, e in enumerate(ehs):
       kind, _, blen = e.partition(':')
       cls = kinds[kind][0]
-      if kind == 'frag':
+      if kind == 'fragdef':
+        h = cls(); elen += 8                      # a Fragment header left at its default body (seven zero octets)
+      elif kind == 'frag':
         h = cls(raw_body=self.ctx.bytes(self.n('fragbody'), 7)); elen += 8
       else:
         blen = int(blen or 6)
@@ -587,6 +589,7 @@ STACKS = {
   'icmp6_other': lambda b: [b.eth(0x86dd), b.ipv6(58), b.icmpv6(200)],
   'ip6_other':  lambda b: [b.eth(0x86dd), b.ipv6(99)],
   'udp6_hop':   lambda b: [b.eth(0x86dd), b.ipv6(17, ('hop',)), b.udp()],
+  'udp6_fragdef': lambda b: [b.eth(0x86dd), b.ipv6(17, ('fragdef',)), b.udp()],
   'udp6_dest14': lambda b: [b.eth(0x86dd), b.ipv6(17, ('dest:14',)), b.udp()],
   'tcp6_frag':  lambda b: [b.eth(0x86dd), b.ipv6(6, ('frag',)), b.tcp()],
   'udp6_hop_dest': lambda b: [b.eth(0x86dd), b.ipv6(17, ('hop', 'dest')), b.udp()],
